@@ -285,6 +285,29 @@ pub fn enc_scalars(e: &Enc) -> Vec<u32> {
         }
         c += if c < 0x3000 { 1 } else if c < 0x10000 { 7 } else { 4099 };
     }
+    // per Unicode block the encoders' lookup code distinguishes: the smallest mappable and the
+    // smallest unmappable scalar according to the reference encoder
+    const BLOCKS: [(u32, u32); 30] = [
+        (0x80, 0xFF), (0x100, 0x24F), (0x250, 0x36F), (0x370, 0x3FF), (0x400, 0x4FF), (0x2000, 0x206F), (0x2100, 0x214F), (0x2150, 0x218F), (0x2190, 0x21FF), (0x2200, 0x22FF),
+        (0x2460, 0x24FF), (0x2500, 0x257F), (0x25A0, 0x26FF), (0x3000, 0x303F), (0x3040, 0x309F), (0x30A0, 0x30FF), (0x3100, 0x312F), (0x3130, 0x318F), (0x3200, 0x33FF), (0x3400, 0x4DBF),
+        (0x4E00, 0x9FA0), (0x9FA1, 0x9FFF), (0xAC00, 0xD7A3), (0xE000, 0xF8FF), (0xF900, 0xFAFF), (0xFE30, 0xFE4F), (0xFF00, 0xFFEF), (0x10000, 0x1FFFF), (0x20000, 0x2A6DF), (0x2F800, 0x2FA1F),
+    ];
+    for (lo, hi) in BLOCKS {
+        let mut have = (false, false);
+        let mut c = lo;
+        while c <= hi && !(have.0 && have.1) {
+            let unm = matches!(ref_enc_one(e, c).last(), Some(ETok::Unmappable(_)));
+            if unm && !have.1 {
+                have.1 = true;
+                shapes.insert(format!("block{:X}/unmappable", lo), c);
+            }
+            if !unm && !have.0 {
+                have.0 = true;
+                shapes.insert(format!("block{:X}/mappable", lo), c);
+            }
+            c += 1;
+        }
+    }
     let mut extra: Vec<u32> = shapes.values().copied().collect();
     extra.sort();
     for c in extra {
@@ -302,6 +325,28 @@ pub fn enc_syms(e: &Enc, utf16: bool, runs: &[usize], small: bool) -> Vec<Vec<u3
     let pick: Vec<u32> = if small {
         // one scalar per reference output shape plus the literal fold/boundary characters
         let mut keep: Vec<u32> = vec![0x41, 0x80, 0xA5, 0x203E, 0x2212, 0xFF61, 0xE5E5, 0x20AC, 0x1B, 0x0E, 0x5C, 0xFFFD, 0x1F4A9];
+        // an unmappable and a mappable representative inside the big CJK blocks (the encoders
+        // have dedicated lookup branches for them)
+        for (lo, hi) in [(0x4E00u32, 0x9FA0u32), (0xAC00, 0xD7A3), (0x3040, 0x30FF), (0x20000, 0x2A6DF), (0xF900, 0xFAFF)] {
+            let mut have = (false, false);
+            let mut c = lo;
+            while c <= hi && !(have.0 && have.1) {
+                let unm = matches!(ref_enc_one(e, c).last(), Some(ETok::Unmappable(_)));
+                if unm && !have.1 {
+                    have.1 = true;
+                    if !keep.contains(&c) {
+                        keep.push(c);
+                    }
+                }
+                if !unm && !have.0 {
+                    have.0 = true;
+                    if !keep.contains(&c) {
+                        keep.push(c);
+                    }
+                }
+                c += 1;
+            }
+        }
         let mut seen = std::collections::HashSet::new();
         for &c in &all {
             let t = ref_enc_one(e, c);
